@@ -94,12 +94,27 @@ def fmt(x):
     return "%.17g" % x
 
 
-def write_input(path, rows, delim, transposed, crlf=False, trailing=False):
+def lex(x, style):
+    """The same value in another lexical form that a well-formed file may use."""
+    t = fmt(x)
+    if style == "plus" and x > 0:
+        t = "+" + t
+    elif style == "space":
+        t = " " + t
+    elif style == "padded":
+        t = t.rjust(26)
+    elif style == "exp":
+        t = "%.17e" % x
+    return t
+
+
+def write_input(path, rows, delim, transposed, crlf=False, trailing=False, style="plain", final_newline=True):
     mat = rows if not transposed else [list(col) for col in zip(*rows)]
     eol = "\r\n" if crlf else "\n"
     with open(path, "w", newline="") as f:
-        for r in mat:
-            f.write(delim.join(fmt(x) for x in r) + (delim if trailing else "") + eol)
+        for i, r in enumerate(mat):
+            last = i + 1 == len(mat)
+            f.write(delim.join(lex(x, style) for x in r) + (delim if trailing else "") + ("" if (last and not final_newline) else eol))
 
 
 def run(cmd, timeout=600):
@@ -204,7 +219,11 @@ def roundtrip(c, r, tmp):
     delim = {"comma": ",", "space": " ", "semi": ";", "tab": "\t", "pipe": "|", "colon": ":"}[c.get("delim", "comma")]
     tin, tout = c.get("tin") == "1", c.get("tout") == "1"
     inp = os.path.join(tmp, "in.txt")
-    write_input(inp, rows, delim, tin, crlf=c.get("crlf") == "1", trailing=c.get("trailing") == "1")
+    style = c.get("lexical", "plain")
+    if delim in (" ", "\t") and style in ("space", "padded"):
+        style = "plain"  # leading blanks would be ambiguous with a blank delimiter
+    write_input(inp, rows, delim, tin, crlf=c.get("crlf") == "1", trailing=c.get("trailing") == "1", style=style,
+                final_newline=c.get("nofinalnl") != "1")
     out = os.path.join(tmp, "out.txt")
     cmd = [CLI, "-i", inp, "-o", out, "--method", method]
     if delim != ",":
@@ -258,7 +277,8 @@ def roundtrip(c, r, tmp):
         cli_out = [list(col) for col in zip(*cli_out)] if cli_out else []
     ref_emb = read_ref(prefix + ".emb")
     if short in DETERMINISTIC:
-        compare(cli_out, ref_emb, r, ctx + (":precompute" if c.get("precompute") == "1" else "") + (":tin" if tin else "") + (":tout" if tout else ""),
+        compare(cli_out, ref_emb, r, ctx + (":precompute" if c.get("precompute") == "1" else "") + (":tin" if tin else "") + (":tout" if tout else "") +
+                (":lexical-" + style if style != "plain" else "") + (":no-final-newline" if c.get("nofinalnl") == "1" else ""),
                 "embedding")
     else:
         td = int(refopts.get("td", 2))
@@ -473,9 +493,19 @@ def malformed(c, r, tmp):
     if kind != "missing-input-file":
         with open(inp, "w") as f:
             f.write("\n".join(lines) + ("" if kind == "no-final-newline" else "\n"))
-    rc, so, se = run([CLI, "-i", inp, "-o", out, "--method", c.get("method", "pca"), "--target-dimension", "1"])
+    wellformed = kind in ("blank-lines", "no-final-newline", "whitespace-padding", "single-column")
+    method = "passthru" if wellformed else c.get("method", "pca")
+    rc, so, se = run([CLI, "-i", inp, "-o", out, "--method", method, "--target-dimension", "1"])
     if sanitizer_or_signal(rc, se, r, "malformed:" + kind):
         return
+    if wellformed and rc == 0:
+        # passthru must write the matrix that was read: one line per sample, the same values
+        expect = rows if kind != "single-column" else [[row[0]] for row in rows]
+        try:
+            got = read_matrix(out, ",")
+            compare(got, expect, r, "malformed:%s:passthru" % kind, "pass-through output")
+        except Exception as e:
+            r.violation("malformed:%s:unparsable-output" % kind, str(e))
     if expect_nonzero and rc == 0:
         r.violation("malformed:%s:exit-0" % kind, "rows of unequal length were accepted with exit status 0")
     if kind in ("blank-lines", "no-final-newline", "whitespace-padding") and rc != 0:
